@@ -90,7 +90,7 @@ CLAIMED['C04'] = dict(
          'Values = deterministic log order); equal observations on both replicas, latest-event-per-subject against a reference fold, idempotent re-indexing. '
          'Found the arrival-order defect (fixed, see known_findings.json).',
     note=TA + 'go-ipfs-log/go-orbit-db replication, batching and reopen are NOT executed: they appear only as the two accessors of the log contract; '
-         'histories of 2..3 (4) events; causally unordered concurrent writes are outside the claim.', design='6/C04')
+         'histories of 2..3 events; causally unordered concurrent writes are outside the claim.', design='6/C04')
 CLAIMED['C13']['text'] = ('Bounded symbolic execution of getEntriesInRange / iterateOverEntries / checkParametersConsistency (every since/until choice, free ids, '
     'free flags; lists of 0..4 / 0..7 entries) and of MetadataStore.ListEvents over the log contract: events that ARRIVED in a free order must be listed in '
     'log order or exactly reversed. Found the reverse-arrival-order defect (fixed, see known_findings.json).')
